@@ -120,6 +120,14 @@ class FileLock:
             except (IOError, OSError):
                 os.close(fd)
                 return False
+            except BaseException:
+                # Interrupted (KeyboardInterrupt / SystemExit) between taking the
+                # kernel lock and recording it: a descriptor nobody remembers
+                # would hold the lock for the life of the process.
+                self._lock_fd = None
+                self._locked = False
+                os.close(fd)
+                raise
 
         # Fallback: O_CREAT|O_EXCL existence locking with stale-lock breaking.
         # Weaker than kernel locks (no automatic release on crash), but still
